@@ -607,6 +607,14 @@ class B:
         xt = self.t(x)
         which = which or rng.choice(["custom", "float_detour", "floor_div", "cast_bool", "sin_like", "batch_reshape"])
         self.net.desc.append("cpu:" + which)
+        if which.startswith("multi"):
+            # operators with 2-3 results (gen_multiout.py): "multi" = any kind, "multi:<kind>"; the results other than the
+            # returned one are collected in self.side_results - the caller decides whether anybody reads them
+            import gen_multiout
+
+            res = gen_multiout.cpu_multi(self, x, which.split(":", 1)[1] if ":" in which else None)
+            self.side_results = getattr(self, "side_results", []) + res[1:]
+            return res[0]
         if which == "custom":
             o = self.fm(xt.shape, xt.dtype, scale=xt.scales[0], zp=xt.zps[0])
             self.net.ops.append(Op("CUSTOM", [x], [o], None, custom_code="ThirdPartyOp",
@@ -770,7 +778,15 @@ def random_net(rng, idx=0, profile="mixed", dtype=None, max_ops=6):
             flat = b.reshape(cur, [1, hh * ww * cc])
             new = b.fc(flat, rng.choice([10, 16, 64]))
         elif kind == "cpu":
-            new = b.cpu_op(cur)
+            if profile == "cpu" and rng.random() < 0.3:
+                # a multi-output CPU operator; each further result is unread, or becomes a candidate operand / output later on
+                new = b.cpu_op(cur, "multi")
+                for side in b.side_results[-2:]:
+                    st = b.t(side)
+                    if rng.random() < 0.4 and len(st.shape) == 4 and st.dtype == xt.dtype and st.scales is not None:
+                        live.insert(rng.randint(1, len(live)), side)
+            else:
+                new = b.cpu_op(cur)
         if new is None:
             b.net.desc[-1] += ":skipped"
             continue
@@ -981,7 +997,8 @@ def weird_net(rng, idx=0):
 PATTERNS = ["multi_input", "input_npu_and_cpu", "residual", "lut_reuse", "deep_slices", "fc1_after_conv", "nobias",
             "casc_s2_valid", "two_npu_islands", "concat_slices", "shared_weights", "big_fm_u65", "avgpool_chain", "minmax_lrelu", "reshape_fork", "widen_ew", "shared_consts"]
 # families defined in netgen_ext.py (imported lazily: that module imports this one)
-EXT_PATTERNS = ["lut_mixed", "shape_out", "transpose_perm", "ew_fork", "fc1_two_core"]
+EXT_PATTERNS = ["lut_mixed", "shape_out", "transpose_perm", "ew_fork", "fc1_two_core", "near_scale"]
+EXT_PATTERNS += ["multi_out_cpu", "slice_masks", "rank_sweep"]          # round 5: gen_multiout.py, gen_ssmask.py, gen_ranksweep.py
 PATTERNS += EXT_PATTERNS
 
 
@@ -993,7 +1010,8 @@ def pattern_net(rng, idx=0, pattern=None, variant=None):
 
         return netgen_ext.build(rng, idx, pattern, variant)
     if pattern == "shared_consts":
-        return shared_consts_net(rng, idx)
+        # pattern sweep: variants 0..11 walk through the axes of part 2, later ones draw the axis (from all of them)
+        return shared_consts_net(rng, idx, axis=SHARED_AXES_EXT[variant] if variant is not None and variant < len(SHARED_AXES_EXT) else None)
     dtype = rng.choice(["int8", "int8", "uint8"])
     b = B(rng, f"pat{idx}_{pattern}", dtype)
     b.net.desc.append(f"pattern={pattern} dtype={dtype}")
@@ -1188,10 +1206,15 @@ def pattern_net(rng, idx=0, pattern=None, variant=None):
 
 SHARED_AXES = ["same", "bias", "ofm_scale", "ifm_scale", "ifm_size", "stride", "stride_first", "stride_ge4", "dilation",
                "tconv", "ifm_bits", "bias_only"]
+# part 2 (harness/netgen_shared.py, imported lazily: that module imports this one): every rewrite that re-lays weights, with
+# users of the shared filter that differ in the parameter the rewrite reads
+SHARED_AXES_EXT = ["padding", "stride_ge4_same_vs_valid", "stride_ge4_ifm_width", "kernel_larger_than_ifm", "dilation_hw", "groups",
+                   "dw_mult", "dw_params", "dw_vs_conv", "fc_ifm_shape", "conv1x1_fc", "tconv_params"]
+SHARED_AXES += SHARED_AXES_EXT
 
 
 def shared_consts_net(rng, idx=0, axis=None, n_ops=None, kernel=None, oc=None, ic=None, hw=None, dtype=None,
-                      per_channel=None, extra_axis=None):
+                      per_channel=None, extra_axis=None, **ext):
     """`axis` (one of SHARED_AXES) names the single respect in which the consumers of the shared filter differ:
 
     same          nothing (pure reuse)                       bias        each operator has its own bias tensor
@@ -1206,6 +1229,10 @@ def shared_consts_net(rng, idx=0, axis=None, n_ops=None, kernel=None, oc=None, i
     ifm_bits      int8 and int16 feature maps on one int8 filter
     bias_only     different filters, one bias tensor"""
     axis = axis or rng.choice(SHARED_AXES)
+    if axis in SHARED_AXES_EXT:
+        import netgen_shared
+
+        return netgen_shared.build(rng, idx, axis, n_ops=n_ops, dtype=dtype, per_channel=per_channel, kernel=kernel, oc=oc, ic=ic, hw=hw, **ext)
     dtype = dtype or ("int8" if axis in ("ifm_bits", "tconv") else rng.choice(["int8", "int8", "int8", "uint8", "int16"]))
     b = B(rng, f"pat{idx}_shared_consts", dtype)
     n_ops = n_ops or rng.choice([2, 2, 2, 3, 4])
